@@ -62,7 +62,7 @@ M_SEQ_TR = 'sequence:transmission:degenerate-k==xsec'
 M_SEQ_EM = 'sequence:emission:degenerate-k==xsec'
 M_PARTS = 'transmission:parts:degenerate-k==xsec'
 REQUIRED = dict(monitors=[M_TR, M_TRT, M_EM, M_EMCF, M_WEXP, M_RANGE, M_JENSEN, M_EMTAU, M_JDEPTH, M_EMK, M_SEQ_TR, M_SEQ_EM, M_PARTS],
-                classes=['parts:molecule-of-several', 'sequence:add:Rayleigh', 'sequence:set', 'sequence:rebuild', 'sequence:fault', 'sequence:fault-fired', 'family:transmission', 'family:emission', 'ngauss:1', 'ngauss:2-4', 'ngauss:5+',
+                classes=['parts:molecule-of-several', 'sequence:pressure-moved-by:array-refilled-in-place', 'sequence:pressure-moved-by:fitting-parameters', 'sequence:add:Rayleigh', 'sequence:set', 'sequence:rebuild', 'sequence:fault', 'sequence:fault-fired', 'family:transmission', 'family:emission', 'ngauss:1', 'ngauss:2-4', 'ngauss:5+',
                          'weights:dirichlet', 'weights:gauss-legendre', 'weights:uniform',
                          'magnitude:transparent', 'magnitude:thin', 'magnitude:mixed', 'magnitude:saturating',
                          'molecules:1', 'molecules:2+', 'interp:linear', 'interp:exp', 'k:degenerate',
@@ -216,6 +216,8 @@ def make_case(rng):
         w, kind = draw_weights(rng, ng)
         spec['weights'] = {m: w for m in spec['tables']}
         spec['weights_kind'] = kind
+        if rng.random() < 0.25 and spec['nlayers'] >= 2:
+            spec['pressure_route'] = 'array'       # layer pressures as the caller's own array
         if world.is_bound(spec):
             return spec
     raise RuntimeError('generator could not draw a bound atmosphere')
@@ -298,6 +300,11 @@ def run(ctx, spec, family, mode, xd, kd, given_deltaz=False, steps=None, parts=F
                                        else SimpleCloudsContribution(clouds_pressure=st['pressure']))
             elif st['op'] == 'set':
                 model[st['name']] = float(model[st['name']]) * st['factor']
+            elif st['op'] == 'pressure':
+                # the pressure range moves: through the fitting parameters, or -- array route -- by refilling the
+                # caller's own array of layer pressures in place
+                how = world.move_pressure_range(model, spec['pmax'] * st['fmax'], spec['pmin'] * st['fmin'])
+                ctx.observe('sequence:pressure-moved-by:' + how)
             elif st['op'] == 'rebuild':
                 model.build()
             elif st['op'] == 'fault':
@@ -597,8 +604,12 @@ def wl_sequence(ctx, rng):
     have = [c if isinstance(c, str) else c['name'] for c in spec['contributions']]
     steps = []
     for _ in range(int(rng.integers(2, 5))):
-        k = rng.integers(0, 4)
-        if k == 0 and 'Rayleigh' not in have:
+        k = rng.integers(0, 5)
+        if k == 4:
+            if spec['temperature']['kind'] == 'npoint':
+                continue                      # N-point nodes are tied to the pressure range
+            steps.append({'op': 'pressure', 'fmax': float(10 ** rng.uniform(-0.3, 0.3)), 'fmin': float(10 ** rng.uniform(-0.3, 0.3))})
+        elif k == 0 and 'Rayleigh' not in have:
             steps.append({'op': 'add', 'what': 'Rayleigh'})
             have.append('Rayleigh')
         elif k == 1:
